@@ -26,6 +26,7 @@ func init() {
 			{ID: "C15/R2", Run: c15r2, Min: 1},
 			{ID: "C15/R3", Run: c15r3, Min: 1},
 			{ID: "C15/R4", Run: c15r4, Min: 1},
+			{ID: "C04/R12", Run: c04r12, Min: 1},
 		},
 	})
 }
